@@ -7,7 +7,7 @@ From Coq Require Import List NArith Arith Bool String.
 From SV Require Import Fmt.LongString Fmt.LongStringProofs Fmt.FgdBin Fmt.FgdBinProofs SM.LazyDb SM.LazyDbProofs SM.LazyDbMulti SM.LazyDbMultiProofs.
 From SV Require Import Fmt.FgdBinEnt Fmt.FgdBinEntProofs Fmt.FgdLine Fmt.FgdLineProofs Fmt.FgdLineTextProofs Fmt.FgdBody Fmt.FgdBodyProofs.
 From SV Require Import Fmt.FgdHead Fmt.FgdHeadProofs Fmt.FgdEntity Fmt.FgdEntityProofs.
-From SV Require Import Fmt.FgdTypeText Fmt.FgdTypeTextProofs.
+From SV Require Import Fmt.FgdTypeText Fmt.FgdTypeTextProofs SM.FgdBlocks SM.FgdBlocksProofs.
 From SV Require Import Gen.FgdConsts_gen.
 Import ListNotations.
 Open Scope N_scope.
@@ -772,4 +772,38 @@ Example c16_type_text_example :
   tab_ok lower tab = true /\
   spec_kv lower tab [32; 42; 73; 78; 84; 32] = (true, Known [105; 110; 116; 101; 103; 101; 114]) /\
   spec_kv lower tab LOCALE_ID = (false, Custom LOCALE_ID).
+Proof. vm_compute. auto. Qed.
+
+(** * Grouping the entities into blocks (SM/FgdBlocks.v; round 4)
+    [gen_bcfg] is read off _engine_db.build_blocks on every run: the three size tests and where blocks without entities leave
+    all_blocks.  For EVERY configuration that does not drop the (still empty) first overflow block before the leftovers are put
+    into it — whatever the size tests, sizes, block limit, order of the overlapping pairs and iteration order of the set of
+    unplaced entities — every entity is in exactly as many blocks as it occurs in the entity list: once.  serialise() writes the
+    class names and the data of every block of that list ([serialise_writes_every_entity], read off the two loops). *)
+Definition blocks_cfg_ok : bool := bcfg_ok gen_bcfg.
+Definition blocks_empty_dropped_at_end : bool := drop_empty_after_leftovers gen_bcfg.
+Definition blocks_all_written : bool := serialise_writes_every_entity.
+Theorem c16_every_entity_in_exactly_one_block : forall (cfg : bcfg) (size : N -> N) (maxsz : N) (all : list N) (pairs : list (N * N)) (order : list N),
+  bcfg_ok cfg = true -> nodupN all = true -> pairs_ok all pairs = true ->
+  (forall x, count_occ N.eq_dec order x = count_occ N.eq_dec (leftovers all (pair_loop cfg size maxsz pairs)) x) ->
+  forall x, count_occ N.eq_dec (List.concat (build_with cfg size maxsz pairs order)) x = count_occ N.eq_dec all x.
+Proof. exact build_with_places_every_entity. Qed.
+Theorem c16_no_empty_block_is_written : forall (cfg : bcfg) (size : N -> N) (maxsz : N) (pairs : list (N * N)) (order : list N),
+  drop_empty_after_leftovers cfg = true -> Forall (fun b => b <> []) (build_with cfg size maxsz pairs order).
+Proof. exact build_has_no_empty_block. Qed.
+(** the defect repaired by bdb271a: the empty overflow block leaves the list before the leftovers are put into it.
+    Entities 1..3 of size 1, limit 10, one overlapping pair (1, 2): entity 3 is in no block. *)
+Definition early_drop_cfg : bcfg :=
+  {| merge_fits := N.leb; add_fits := N.ltb; ovf_full := fun a b => N.leb b a; drop_empty_before_leftovers := true; drop_empty_after_leftovers := false |}.
+Example c16_early_drop_refuted :
+  build early_drop_cfg (fun _ => 1) 10 [1; 2; 3] [(1, 2)] = [[1; 2]] /\
+  build gen_bcfg (fun _ => 1) 10 [1; 2; 3] [(1, 2)] = (if blocks_cfg_ok then [[1; 2]; [3]] else build gen_bcfg (fun _ => 1) 10 [1; 2; 3] [(1, 2)]).
+Proof. split; vm_compute; reflexivity. Qed.
+Definition early_drop_breaks : bool := negb (memN 3 (List.concat (build early_drop_cfg (fun _ => 1) 10 [1; 2; 3] [(1, 2)]))).
+(** the hypotheses are satisfiable, merges and overflow splits included: 6 entities of size 4, limit 10 *)
+Example c16_blocks_example :
+  let all := [1; 2; 3; 4; 5; 6] in let pairs := [(1, 2); (3, 4); (2, 3); (1, 4)] in
+  nodupN all = true /\ pairs_ok all pairs = true /\
+  build {| merge_fits := N.leb; add_fits := N.ltb; ovf_full := fun a b => N.leb b a; drop_empty_before_leftovers := false;
+           drop_empty_after_leftovers := true |} (fun _ => 4) 10 all pairs = [[1; 2]; [3; 4]; [5; 6]].
 Proof. vm_compute. auto. Qed.
